@@ -4,7 +4,14 @@ use serde_json::{json, Value};
 use std::path::PathBuf;
 use std::time::Instant;
 
-pub const VERIF_DIR: &str = "/verif";
+pub const VERIF_DIR_DEFAULT: &str = "/verif";
+
+/// Where KNOWN_FINDINGS.json is read and evidence / replays are written.  Always /verif for the
+/// registered commands; the override exists so that a scratch copy of the harness (built against
+/// a scratch worktree with a seeded change) does not overwrite the committed evidence.
+pub fn verif_dir() -> String {
+    std::env::var("VERIF_SHADOW_DIR").unwrap_or_else(|_| VERIF_DIR_DEFAULT.to_string())
+}
 
 #[derive(Clone, Debug)]
 pub struct Cli {
@@ -85,7 +92,7 @@ pub struct Report {
 }
 
 fn load_known() -> Vec<Value> {
-    let p = format!("{}/KNOWN_FINDINGS.json", VERIF_DIR);
+    let p = format!("{}/KNOWN_FINDINGS.json", verif_dir());
     match std::fs::read_to_string(&p) {
         Ok(s) => serde_json::from_str::<Value>(&s)
             .ok()
@@ -164,7 +171,7 @@ impl Report {
         let mut wall = self.start.elapsed().as_secs_f64();
         let mut nviol = new_v.len();
         let mut assumptions = self.assumptions.clone();
-        let path0 = format!("{}/evidence/{}.json", VERIF_DIR, self.prop);
+        let path0 = format!("{}/evidence/{}.json", verif_dir(), self.prop);
         if self.append {
             if let Some(old) = std::fs::read_to_string(&path0).ok().and_then(|s| serde_json::from_str::<Value>(&s).ok()) {
                 let oc = old.get("coverage").cloned().unwrap_or(json!({}));
@@ -206,7 +213,7 @@ impl Report {
             "wall_s": wall,
             "violations": nviol,
         });
-        let dir = format!("{}/evidence", VERIF_DIR);
+        let dir = format!("{}/evidence", verif_dir());
         let _ = std::fs::create_dir_all(&dir);
         let path = format!("{}/{}.json", dir, self.prop);
         if let Err(e) = std::fs::write(&path, serde_json::to_string_pretty(&ev).unwrap()) {
@@ -234,7 +241,7 @@ impl Report {
             keys.dedup();
             println!("ALL-VIOLATION-KEYS property={} count={}: {}", self.prop, keys.len(), keys.join(" | "));
         }
-        let rdir = PathBuf::from(format!("{}/replays/{}", VERIF_DIR, self.prop));
+        let rdir = PathBuf::from(format!("{}/replays/{}", verif_dir(), self.prop));
         let _ = std::fs::create_dir_all(&rdir);
         // distinct keys first, at most 10 replay files
         let mut seen = std::collections::BTreeSet::new();
